@@ -150,9 +150,27 @@ def case_np21_lf(ctx, n, window, K):
     ctx.oblige("original_ap_untouched", bool(o.exists) and isinstance(o.content, LArr))
 
 
+def case_np21_converter_reused(ctx, n, window, window2, K):
+    """one converter object used for two runs (init_params(nwindow=...) + process(overwrite=True) in a loop, the natural way to
+    compare window sizes): the second run's LF file obeys the same law, for its own window size"""
+    conv, F, ns, nc = build_np21(ctx, n, window, K)
+    st = ctx.call("process", conv.process)
+    ctx.oblige("status_is_one", st == 1)
+    ctx.call("init_params_again", lambda: conv.init_params(nwindow=window2))
+    st = ctx.call("process_again", lambda: conv.process(overwrite=True))
+    ctx.oblige("second_run_status_is_one", st == 1)
+    import neuropixel
+    nwin = len(list(neuropixel.WindowGenerator(ns, window2, OV).firstlast))
+    path = "/s/probe00/x.imec0.lf.bin"
+    check_lf(ctx, conv, F, path, ns, list(range(nc)), window2, nwin, nc - 1, nc - 1)
+    _lf_meta(ctx, F, path, ns, nc, "NP2.1")
+
+
 def cases(tier):
     b = bounds(tier)
     cs = []
+    w0, w1 = b["windows"][0], b["windows"][min(1, len(b["windows"]) - 1)]
+    cs.append(Case(f"np21_converter_reused_w{w0}_then_w{w1}", "case_np21_converter_reused", {"n": 2, "window": w0, "window2": w1, "K": 2}, timeout_s=3000))
     for w in b["windows"]:
         cs.append(Case(f"np21_w{w}", "case_np21_lf", {"n": 2, "window": w, "K": b["K"]}, timeout_s=3000))
     for w in b["windows"][:2] if tier == "quick" else b["windows"]:
@@ -212,6 +230,13 @@ try:
     conv.process()
 except Exception as e:
     reproduced(f'process raised {{type(e).__name__}}: {{e}}')
+window2 = {params.get('window2')!r}
+if window2 is not None:      # the same converter object runs again with another window size
+    window = window2
+    try:
+        conv.init_params(nwindow=window2); conv.process(overwrite=True)
+    except Exception as e:
+        reproduced(f'second run on the same converter raised {{type(e).__name__}}: {{e}}')
 sr = spikeglx.Reader(d / 'x.imec0.ap.bin', sort=False)
 tap = np.r_[0, scipy.signal.windows.cosine(143 * 2), 0]
 sos = scipy.signal.butter(N=2, Wn=1000 / 2500 / 2, btype='lowpass', output='sos')
